@@ -180,6 +180,48 @@ func Hist(name string) *ref.History {
 			}
 			h.Files = append(h.Files, nf)
 		}
+	case "H2r", "H2c", "H2d":
+		// H2r: H2 where the index of the file names rolls over from six to seven
+		// digits (binlog.999999 -> binlog.1000000: the new name sorts BEFORE the old one)
+		// H2c / H2d: H2 where binlog_checksum was changed at the rotation (CRC32 ->
+		// NONE / NONE -> CRC32); the ROTATE that opens a dump is written under the
+		// master's current setting, the one of the second file
+		h2 := *Hist("H2")
+		h = &ref.History{Cfg: cfg}
+		names := map[string]string{}
+		for _, f := range h2.Files {
+			names[f.Name] = f.Name
+		}
+		if name == "H2r" {
+			names[f1], names[f2] = "binlog.999999", "binlog.1000000"
+		}
+		none := cfg
+		none.Checksum = ref.ChecksumOff
+		for i, f := range h2.Files {
+			nf := &ref.File{Name: names[f.Name]}
+			for _, e := range f.Events {
+				ne := *e
+				if ne.Kind == ref.ARotate {
+					ne.RotateFile = names[ne.RotateFile]
+				}
+				nf.Events = append(nf.Events, &ne)
+			}
+			if (name == "H2c" && i == 1) || (name == "H2d" && i == 0) {
+				c := none
+				nf.Cfg = &c
+			}
+			h.Files = append(h.Files, nf)
+		}
+		if name == "H2c" {
+			h.Global = &none
+		}
+		if name == "H2d" {
+			h.Cfg = none // what the handshake tells: the setting of the first file
+			c := cfg
+			h.Files[1].Cfg = &c
+			h.Files[0].Cfg = nil
+			h.Global = &c
+		}
 	case "H2q", "H18":
 		if name == "H18" {
 			// a DDL statement that does not commit (CREATE / DROP TEMPORARY TABLE)
